@@ -88,6 +88,13 @@ def gen_cases(tier, seed):
                     for x0 in ("zero", "ones"):
                         cases.append(dict(kind="cg", n=n, spectrum="three", U=U, b="complex", x0=x0, P=P, asfn=asfn,
                                           max_iter="n", tol=0, xlayout="strided"))
+    # systems far from unit scale: CG is invariant under A -> sA, b -> tb (iterates scale by t/s)
+    for n in (2, 4):
+        for (sa, sb) in ((1e-12, 1.0), (1e12, 1.0), (1e-10, 1e-10), (1.0, 1e-15), (1e8, 1e-8)):
+            for P in ("none", "jacobi"):
+                for asfn in (False, True):
+                    cases.append(dict(kind="cg", n=n, spectrum="three", U="dft", b="complex", x0="zero", P=P, asfn=asfn,
+                                      max_iter="n+2", tol=0, scaleA=sa, scaleb=sb))
     for kind in ("indefinite", "negdef", "singular"):
         for n in (1, 2, 3, 4):
             for U in ("I", "householder", "dft"):
@@ -144,6 +151,11 @@ def run_case(case, seed):
     viol = []
     n = case["n"]
     A, b, x0, P = instance(case)
+    if case.get("scaleA"):
+        A = A * case["scaleA"]
+        b = b * case["scaleb"]
+        if P is not None:
+            P = P / case["scaleA"]
     when = "P=%s, max_iter=%s, A as %s%s" % (case["P"], case["max_iter"], "function" if case["asfn"] else "Linop",
                                              ", non-contiguous x" if case.get("xlayout") else "")
 
@@ -215,14 +227,14 @@ def run_case(case, seed):
                 V("krylov-optimal", "after %d updates ||x_k - x_k^ref|| / ||x*|| = %.3g (tol %g, cond %.3g, d=%d)" % (k, dev, tolx, cond, d))
                 break
         err = anorm(A, xk - xstar)
-        if not err <= err_prev * (1 + 1e-9) + 1e-12 * e0:
+        if not err <= err_prev * (1 + 1e-9) + 1e-10 * e0:
             V("anorm-monotone", "A-norm error rose from %.6g to %.6g at update %d" % (err_prev, err, k))
             break
         err_prev = err
         if k < max_iter and not alg.not_positive_definite:
             rtrue = b - A @ xk
             dr = np.linalg.norm(np.asarray(alg.r).ravel() - rtrue) / max(np.linalg.norm(b), 1e-300)
-            if not dr <= 1e-8 * max(1.0, cond):
+            if not dr <= 1e-8 * max(1.0, cond):   # relative to ||b||
                 V("tracked-residual", "after %d updates ||r - (b - A x)|| / ||b|| = %.3g" % (k, dr))
                 break
         if k >= d and strict:
